@@ -127,16 +127,26 @@ def rule_serialize(ctx):
             if show(ts[0].data["term"].args[0]).split(".")[0] not in ("message", "msg"):
                 ctx.violated("C19.SERIALIZE", entry.short, "what is serialised is not the routed message", fi=entry, text="wrong-message")
                 bad = True
-        # the coroutine writes its parameter with one write call
+        # the coroutine writes (only) its parameter; chunked writes inside the lock region are still whole and ordered
         cpaths = run_method(p, co)
+        pname = co.params()[1] if len(co.params()) > 1 else None
         for pa in cpaths:
+            if any(e.kind == "loop-enter" and e.data["symbolic"] and e.data["n"] == 0 for e in pa.events):
+                continue
             ws = [e for e in pa.events if e.kind == "call" and isinstance(e.data["term"].args[0], Term) and e.data["term"].args[0].op == "attr" and e.data["term"].args[0].args[1] in ("write", "writelines", "sendall")]
-            pname = co.params()[1] if len(co.params()) > 1 else None
-            if len(ws) != 1 or not ws[0].data["args"] or show(ws[0].data["args"][0]) != pname:
-                ctx.violated("C19.SERIALIZE", co.short, f"the payload is not written whole by a single write call ({[show(e.data['term'])[:40] for e in ws]})", fi=co, text=f"write:{len(ws)}")
+            if not ws:
+                ctx.violated("C19.SERIALIZE", co.short, "the sender coroutine has a path that writes nothing", fi=co, text="write:0")
                 bad = True
+            for w in ws:
+                a = w.data["args"][0] if w.data["args"] else None
+                if a is None or not mentions(a, lambda t: isinstance(t, Term) and t.op == "param" and t.args[0] == pname):
+                    ctx.violated("C19.SERIALIZE", co.short, f"something other than the payload handed over at routing time is written: {show(a)[:50] if a is not None else None}", fi=co, text="write-arg")
+                    bad = True
+                elif mentions(a, lambda t: isinstance(t, Term) and t.op == "call" and is_call(t, method="to_string")):
+                    ctx.violated("C19.SERIALIZE", co.short, "the message is serialised inside the coroutine (after routing), so it may reflect later state", fi=co, text="late-serialise-in-coroutine")
+                    bad = True
         if not bad:
-            ctx.holds("C19.SERIALIZE", entry.short, "to_string() at routing time -> one task carrying those bytes -> one write", fi=entry)
+            ctx.holds("C19.SERIALIZE", entry.short, "to_string() at routing time -> one task carrying those bytes -> written inside the lock region", fi=entry)
 
 
 def rule_nonblock(ctx):
